@@ -238,6 +238,12 @@ func main() {
 			out := Out{ID: i, Mode: "gen", Ctx: ctx, Bg: isBg(ctx), Scratch: scratch}
 			out.Parent = g.Ops(2+r.IntN(6), ctx != "api", 0)
 			out.Child = g.Ops(1+r.IntN(5), false, 0)
+			if i%3 == 0 {
+				// targeted: the child writes into an array / map the parent owns
+				pre, first := g.Targeted()
+				out.Parent = append([]hxc27.Op{pre}, out.Parent...)
+				out.Child = append([]hxc27.Op{first}, out.Child...)
+			}
 			childSrc := hxc27.Render(out.Child, "__snap c")
 			var c hxc27.Case
 			c.ID = i
